@@ -66,8 +66,44 @@ def _stmts(accs, depth, max_stmts, calls=True, pure=True, carried=True, unit_wei
                 kinds += ["call"]
             if pure:
                 kinds += ["pure"]
+            if pure:
+                kinds += ["chain_unit"]
+            if depth > 1:
+                kinds += ["if_chain"]
             k = draw(st.sampled_from(kinds))
-            if k == "unit":
+            if k == "if_chain":
+                # if / else-if chain without a final else whose setting branches agree on some field values, followed by a unit that
+                # writes (some of) them again: the state after the chain is an intersection over three paths
+                u = draw(_unit(accs))
+                u2 = ["unit", u[1], list(u[2]), u[3]]
+                if draw(st.booleans()) and u2[2]:
+                    u2[2][draw(st.integers(0, len(u2[2]) - 1))] = draw(_vref())
+                c1 = ["p", draw(st.integers(0, 3))]
+                c2 = ["p", draw(st.integers(0, 3))]
+                inner = ["if", c2, [u2], draw(st.sampled_from([[], [], [draw(_unit(accs))]]))]
+                if draw(st.booleans()):
+                    out.append(["if", c1, [u], [inner]])
+                else:
+                    out.append(["if", c1, [inner], [u]])
+                u3 = ["unit", u[1], list(u[2]), u[3]]
+                if draw(st.booleans()) and u3[2]:
+                    u3[2][draw(st.integers(0, len(u3[2]) - 1))] = draw(_vref())
+                out.append(u3)
+                continue
+            if k == "chain_unit":
+                # a chain of pure ops (each using the previous result) followed by a unit fed by the chain results at different depths,
+                # in any field order: the shape setup/compute overlap has to move as a whole
+                nchain = draw(st.integers(1, 3))
+                for j in range(nchain):
+                    other = draw(st.integers(-6, 6))
+                    first = -1 if j else draw(st.integers(-4, 4))
+                    out.append(["pure", draw(st.sampled_from(PURE_OPS)), first, other] if draw(st.booleans())
+                               else ["pure", draw(st.sampled_from(PURE_OPS)), other, first])
+                a = draw(st.integers(0, len(accs) - 1))
+                nf = len(accs[a][1])
+                refs = [draw(st.sampled_from([-1, -2, -3][:nchain] + [draw(st.integers(0, 5))])) for _ in range(nf)]
+                out.append(["unit", a, refs, draw(st.sampled_from([None, None, 0]))])
+            elif k == "unit":
                 out.append(draw(_unit(accs)))
             elif k == "for":
                 hdr = draw(_loop_hdr())
@@ -196,8 +232,13 @@ def build(recipe, ty=None, extra_module_ops="", func_name="main") -> Built:
                 acc_entry = accs[a % len(accs)]
                 if len(acc_entry) > 2:
                     # declared launch fields: one value per launch field (launch is a vref seed)
-                    lfields = acc_entry[2]
+                    lfields = list(acc_entry[2])
                     seed = launch if launch is not None else 0
+                    # launch parameters are looked up by name: any order is valid; a subset too unless the fields come in rs1/rs2 pairs
+                    rot = (seed * 7 + len(out)) % len(lfields)
+                    lfields = lfields[rot:] + lfields[:rot]
+                    if len(lfields) > 1 and not lfields[0].endswith((".rs1", ".rs2")) and (seed + len(out)) % 5 == 0:
+                        lfields = lfields[:-1]
                     lvs = [vref(seed + j, vals) for j in range(len(lfields))]
                     lnames = ", ".join(f'"{f}"' for f in lfields)
                     out.append(f'{pad}{tk} = "accfg.launch"({", ".join(lvs + [st_])}) <{{param_names = [{lnames}], accelerator = "{name}"}}> : '
